@@ -18,6 +18,8 @@ CASCADE) and post_update cycles (Parent.favorite).
 """
 from __future__ import annotations
 
+import warnings
+
 from hypothesis import strategies as st
 
 from checks import _orm_flush as E
@@ -114,7 +116,9 @@ def _check(case, ctx, shadow):
         mon = _Monitor(it, shadow)
         try:
             it.run(case["ops"])
-            it.step(["commit", 0, 0, 0])
+            with warnings.catch_warnings():
+                warnings.simplefilter("ignore")
+                it.step(["commit", 0, 0, 0])
         finally:
             it.close()
     finally:
